@@ -54,8 +54,9 @@ var (
 
 	// Any DNS query for a name ending with ".local." MUST be sent to the
 	// mDNS IPv4 link-local multicast address 224.0.0.251 (or its IPv6 equivalent FF02::FB).
-	mdnsIPv4Addr = packet.Addr{MAC: packet.EthBroadcast, IP: netip.AddrFrom4([4]byte{224, 0, 0, 251}), Port: 5353}
-	mdnsIPv6Addr = packet.Addr{MAC: packet.EthBroadcast, IP: netip.MustParseAddr("ff02::fb"), Port: 5353}
+	// Ethernet destination of a multicast group: 01:00:5e + low 23 bits (IPv4, RFC 1112), 33:33 + low 32 bits (IPv6, RFC 2464)
+	mdnsIPv4Addr = packet.Addr{MAC: net.HardwareAddr{0x01, 0x00, 0x5e, 0x00, 0x00, 0xfb}, IP: netip.AddrFrom4([4]byte{224, 0, 0, 251}), Port: 5353}
+	mdnsIPv6Addr = packet.Addr{MAC: net.HardwareAddr{0x33, 0x33, 0x00, 0x00, 0x00, 0xfb}, IP: netip.MustParseAddr("ff02::fb"), Port: 5353}
 
 	// TODO: do we need LLMNR? perhaps useful when a new windows machine is pluggedin?
 
@@ -70,8 +71,8 @@ var (
 	//
 	// Windows hosts will query a name on startup to prevent duplicates on the LAN
 	// https://docs.microsoft.com/en-us/previous-versions//bb878128(v=technet.10)
-	llmnrIPv4Addr = packet.Addr{MAC: packet.EthBroadcast, IP: netip.AddrFrom4([4]byte{224, 0, 0, 252}), Port: 5355}
-	llmnrIPv6Addr = packet.Addr{MAC: packet.EthBroadcast, IP: netip.MustParseAddr("FF02:0:0:0:0:0:1:3"), Port: 5355}
+	llmnrIPv4Addr = packet.Addr{MAC: net.HardwareAddr{0x01, 0x00, 0x5e, 0x00, 0x00, 0xfc}, IP: netip.AddrFrom4([4]byte{224, 0, 0, 252}), Port: 5355}
+	llmnrIPv6Addr = packet.Addr{MAC: net.HardwareAddr{0x33, 0x33, 0x00, 0x01, 0x00, 0x03}, IP: netip.MustParseAddr("FF02:0:0:0:0:0:1:3"), Port: 5355}
 )
 
 // SendMDNSQuery send a multicast DNS query
